@@ -4,7 +4,8 @@ every operation over strings from a mixed-width alphabet; eval(repr(x)) == x ins
 import itertools, json, os, random, concurrent.futures
 import vlib, pydiff
 
-THEOREMS = ["C14_len_counts_code_points", "C14_pos_is_prefix_width", "C14_slice_by_code_points", "C14_repr_eval_roundtrip"]
+THEOREMS = ["C14_len_counts_code_points", "C14_pos_is_prefix_width", "C14_slice_by_code_points", "C14_repr_eval_roundtrip",
+            "C14_find_by_code_points", "C14_find_is_least_occurrence", "C14_find_none_means_absent", "C14_startswith_by_code_points", "C14_contains_by_code_points"]
 ALPHA = ["a", "b", " ", "'", '"', "\\", "\n", "\x00", "\x7f", "é", "€", "\U0001F600", "ß"]
 
 def lit(s):
@@ -135,12 +136,30 @@ def coq_slices(name, rows):
     v = vlib.parse_coq_value("M " + out[out.find("M ="):].replace("M =", " =", 1)) if "M =" in out else None
     return v, out[-300:]
 
+def coq_search(name, rows):
+    """rows: (kind, cps, sub, beg, end, observed) with kind 0 = find, 1 = count, 2 = startswith; the implementation's
+    answer must equal the byte-level model (Model/StrSearch.v) AND, for find/startswith, Python's rule over code points"""
+    text = ("From Coq Require Import List Bool Arith NArith ZArith. Import ListNotations.\nFrom GP Require Import Model.Utf8 Model.StrSearch.\n"
+      "Definition cases : list (nat * list N * list N * Z * Z * Z) := [\n" + ";\n".join(rows) + "].\n"
+      "Definition b2z (b : bool) : Z := if b then 1%Z else 0%Z.\n"
+      "Definition ok (c : nat * list N * list N * Z * Z * Z) : bool := let '(k, s, sub, b, e, o) := c in\n"
+      "  match k with O => Z.eqb (find_model (encode s) (encode sub) b e) o && Z.eqb (cp_find s sub b e) o\n"
+      "  | 1%nat => Z.eqb (count_model (encode s) (encode sub) b e) o\n"
+      "  | _ => Z.eqb (b2z (startswith_model (encode s) (encode sub) b e)) o && Z.eqb (b2z (cp_startswith s sub b e)) o end.\n"
+      "Fixpoint bad (i : nat) (l : list (nat * list N * list N * Z * Z * Z)) : list nat := match l with [] => [] | c :: r => if ok c then bad (S i) r else i :: bad (S i) r end.\n"
+      "Definition M := Eval vm_compute in bad 0 cases.\nPrint M.\n")
+    rc, out = vlib.coqc_run(name, text, timeout=600)
+    if rc != 0: return None, out[-1200:]
+    v = vlib.parse_coq_value("M " + out[out.find("M ="):].replace("M =", " =", 1)) if "M =" in out else None
+    return v, out[-300:]
+
 def check(res):
     tier, seed = res.tier, res.seed
     rnd = random.Random(seed)
     res.trusted = vlib.COMMON_TRUST + [
         "Model/Utf8.v models len/pos/slice over byte lists for valid UTF-8; tied to the implementation by comparing s[a:b] for generated strings with the model inside Coq",
-        "find/count/startswith/endswith/split/join/strip/replace/compare/repeat/ord/chr/repr/eval are compared with CPython (validated oracle, testing); Go's unicode tables (IsSpace, IsPrint, case mapping) are trusted"]
+        "Model/StrSearch.v models find/Count/window+HasPrefix/Contains of py/string.go over byte lists, with Go's strings.Index/HasPrefix/Count as list functions; tied by comparing s.find/count/startswith (with start/end) of the implementation with the model AND with the code-point rule inside Coq",
+        "endswith/split/join/strip/replace/compare/repeat/ord/chr/eval (and find/count/startswith once more) are compared with CPython (validated oracle, testing); Go's unicode tables (IsSpace, IsPrint, case mapping) are trusted"]
     res.assumptions = ["CPython 3.11 agrees with Python 3.4 on str operations for the alphabet used (repr of non-printable characters included)"]
     built, mlog = vlib.coq_make()
     p_ok = "Props/C14.vo" in built
@@ -157,7 +176,7 @@ def check(res):
         p, m = program(s, rnd); progs.append(p); metas.append(m)
     impl = pydiff.run_impl(progs); ref = pydiff.run_ref(progs)
     findings = vlib.load_findings("C14")
-    mism = []; rows = []; rowmeta = []; n = 0; nontrivial = 0; known = {}
+    mism = []; rows = []; rowmeta = []; srows = []; srowmeta = []; n = 0; nontrivial = 0; known = {}
     # chr / ord over every code point up to U+0900 and around every encoding-length and plane boundary
     sweep = ("pts = list(range(0, 0x900)) + [0xd7fe, 0xd7ff, 0xe000, 0xe001, 0xfffd, 0xfffe, 0xffff, 0x10000, 0x10001, 0x1f600, 0xfffff, 0x100000, 0x10fffe, 0x10ffff]\n"
              "bad = []\nfor i in pts:\n    c = chr(i)\n    ok = len(c) == 1 and ord(c) == i and c == eval(repr(c)) and c == eval(ascii(c)) and (c + 'x')[0] == c and ('x' + c)[1] == c and c in (c + c) and (c + c).find(c) == 0 and (c * 3).count(c) == 3 and len(c * 3) == 3\n"
@@ -189,6 +208,21 @@ def check(res):
                     continue
                 rows.append("([%s]%%N, %d%%nat, %d%%nat, [%s]%%N)" % ("; ".join(str(ord(c)) for c in s), st, sp, "; ".join(str(x) for x in obs)))
                 rowmeta.append((s, case, got))
+            if case["op"] in ("find", "find2", "find3", "count", "startsends_bounds"):
+                cp = lambda x: "[%s]%%N" % "; ".join(str(ord(c)) for c in x)
+                zz = lambda v: "(%d)%%Z" % v
+                def srow(kind, beg, end, obs):
+                    srows.append("(%d%%nat, %s, %s, %s, %s, %s)" % (kind, cp(s), cp(case["sub"]), zz(beg), zz(end), zz(obs)))
+                    srowmeta.append((s, case, got))
+                try:
+                    val = eval(got, {"__builtins__": {}}, {})
+                    if case["op"] == "startsends_bounds":
+                        if isinstance(val, tuple) and len(val) == 7 and all(isinstance(x, (bool, int)) for x in val):
+                            srow(2, case["beg"], len(s), int(val[0])); srow(2, case["beg"], case["end"], int(val[1])); srow(1, case["beg"], case["end"], int(val[4]))
+                    elif isinstance(val, int):
+                        srow(1 if case["op"] == "count" else 0, case.get("beg", 0), case.get("end", len(s)), val)
+                except Exception:
+                    pass
             if k >= len(la): break
     tie_bad = []; tie_err = None
     shards = [list(range(len(rows)))[i::8] for i in range(8)]
@@ -197,6 +231,14 @@ def check(res):
             if v is None: tie_err = log
             else: tie_bad += [rowmeta[sh[i]] for i in v]
     res.oblige("correspondence: s[a:b] of the implementation = str_slice of the model on %d cases (vm_compute)" % len(rows), tie_err is None and not tie_bad, tie_err or str(tie_bad[:3]))
+    # --- tie: find / count / startswith with windows vs Model/StrSearch.v (bytes) and the code-point rule
+    s_bad = []; s_err = None
+    sshards = [list(range(len(srows)))[i::12] for i in range(12)]
+    with concurrent.futures.ThreadPoolExecutor(12) as ex:
+        for sh, (v, log) in zip(sshards, ex.map(lambda a: coq_search("C14_search_%d" % a[0], [srows[i] for i in a[1]]), list(enumerate(sshards)))):
+            if v is None: s_err = log
+            else: s_bad += [srowmeta[sh[i]] for i in v]
+    res.oblige("correspondence: find/count/startswith (with windows) of the implementation = Model/StrSearch.v over the UTF-8 bytes and = the code-point rule, on %d cases (vm_compute)" % len(srows), s_err is None and not s_bad and len(srows) > 1000, s_err or str(s_bad[:3]))
     # --- tie: repr text and its evaluation vs Model/Repr.v + Model/Escape.v
     rcases = repr_cases(tier, seed); robs = run_repr(rcases)
     repr_bad = []; repr_err = None
@@ -213,8 +255,8 @@ def check(res):
     res.coverage.update(evaluations=n, distinct_nontrivial=nontrivial, programs=len(progs),
         rule="all strings of length <= 2 and seeded strings of length 3..9 over an alphabet of 1-, 2-, 3- and 4-byte characters, both quotes, backslash, newline, NUL and DEL; per string: len, iteration, every index, slices, in/find(+start/end)/count/startswith/endswith/split/replace/join with substrings taken from the string and the alphabet, strip, comparison, repetition, ord/chr, repr, eval(repr(x)) == x (also nested in tuple/list with int/float/big int); compared with CPython; non-trivial = the string contains a multi-byte character",
         samples=[dict(string=[hex(ord(c)) for c in ss[200]], first_lines=impl[200].get("out", "").splitlines()[:3])],
-        distribution=dict(strings=len(ss), lines=n, model_checked_slices=len(rows), model_checked_reprs=len(rcases)), oracle_disagreements=len(mism),
-        modelled_not_verified=["strings.Index/Count/Split/Replace", "strconv.IsPrint (a parameter of the repr theorem, measured in the correspondence)", "repr of bytes/float/containers (CPython differential only)", "unicode tables"])
+        distribution=dict(strings=len(ss), lines=n, model_checked_slices=len(rows), model_checked_reprs=len(rcases), model_checked_searches=len(srows)), oracle_disagreements=len(mism),
+        modelled_not_verified=["strings.Index/HasPrefix/Count as list functions (Model/StrSearch.v: index_from, is_prefix, count_go; find/startswith/in proved equal to the code-point rule, count tied by correspondence only)", "strings.Split/Replace (CPython differential only)", "strconv.IsPrint (a parameter of the repr theorem, measured in the correspondence)", "repr of bytes/float/containers (CPython differential only)", "unicode tables"])
     if mism:
         case, got, exp = mism[0]
         res.violation("counterexample", "string operation differs from Python's code-point semantics", dict(input=case, expected=exp, observed=got,
@@ -226,8 +268,14 @@ def check(res):
                       dict(input=dict(harness_command="impl c14repr", code_points=cps, text_after_the_literal=rest), observed=o,
                            expected="R = repr_str of the model, V = the string itself", others=[dict(code_points=c, rest=r, observed=ob) for (c, r), ob in repr_bad[1:6]]))
         return
-    if not p_ok or tie_bad or tie_err or repr_err:
-        res.violation("proof-broken" if not p_ok else "tie-broken", "C14 no longer shown", dict(theorem_or_correspondence="Props/C14.v / slice correspondence / repr correspondence", repr_error=repr_err,
+    if s_bad:
+        s0, case0, got0 = s_bad[0]
+        res.violation("counterexample", "find/count/startswith of the implementation differs from the proved model (Model/StrSearch.v, C14_find_by_code_points / C14_startswith_by_code_points)",
+                      dict(input=dict(string=[hex(ord(c)) for c in s0], **{kk: (vv if (kk == 'op' or not isinstance(vv, str)) else [hex(ord(c)) for c in vv]) for kk, vv in case0.items()}), observed=got0,
+                           expected="find_model / count_model / startswith_model over the UTF-8 bytes = the code-point rule", others=[str(x)[:300] for x in s_bad[1:6]]))
+        return
+    if not p_ok or tie_bad or tie_err or repr_err or s_err or len(srows) <= 1000:
+        res.violation("proof-broken" if not p_ok else "tie-broken", "C14 no longer shown", dict(theorem_or_correspondence="Props/C14.v / slice correspondence / repr correspondence / search correspondence", repr_error=repr_err, search_error=s_err, search_cases=len(srows),
                       coqc_error=[l for l in mlog.splitlines() if "rror" in l][-10:], first_disagreements=[str(t) for t in tie_bad[:5]], tie_error=tie_err), no_input=True)
 
 def replay(path):
